@@ -160,6 +160,10 @@ Synced == /\ eps["I"].cs = "ACTIVE" /\ eps["A"].cs = "ACTIVE"
           /\ OnlyAccepted(delivered["I"], accepted["A"]) = accepted["A"]
           /\ eps["I"].nin = eps["A"].nout /\ eps["A"].nin = eps["I"].nout
 Quiescence == Quiet => Synced
+\* Neither endpoint gives up a connection by itself: while the link is up, delivering a frame or sending a message never
+\* ends with a socket detached (otherwise "quiescent and both ACTIVE" would be reached only by yet another reconnect).
+Stays == [][(hist' # hist /\ hist'[Len(hist')].t \in {"deliver", "send"} /\ link = "up" /\ eps["I"].sock /\ eps["A"].sock)
+              => (eps'["I"].sock /\ eps'["A"].sock)]_vars
 
 (* ---- C09 ---- *)
 \* T1: restored counters equal the live counters of the old object (checked on the Restart step)
